@@ -12,6 +12,8 @@ from .. import common, ptydrv
 
 SIGMA_A = [" ", "a", "1", "é", "'", '"', "`", "\\", "$", "(", ")", "|", "&", ">"]
 SIGMA_B = ["{", "}", ",", ".", "*", "~", "<", ";", "#", "=", "+", "^", "1", "a"]
+# the characters of A and B that interact across the two alphabets (${a, "${, ~{, {$a,)
+SIGMA_C = ["$", "{", "}", "a", "1", "`", '"', "'", "\\", "(", ")", "*", "~", " "]
 CRASH_STATUS = {101, 134, 139, 132, 136}
 
 
@@ -141,10 +143,10 @@ def ends_open(s):
 
 
 def run(rep, tier):
-    rep.rule = ('every string over alphabet A = %r and B = %r up to the stated length; non-trivial = tokenizes into '
+    rep.rule = ('every string over alphabets A = %r, B = %r and C (mixed) up to the stated length; non-trivial = tokenizes into '
                 'more than one token or more than one list segment (in-process), distinct = distinct string' % (SIGMA_A, SIGMA_B))
     rep.assumptions = [
-        'inputs limited to the two 14-symbol alphabets and the stated lengths; script layer limited to the listed block-keyword lines',
+        'inputs limited to the three 14-symbol alphabets (A, B and C = the interacting characters of both) and the stated lengths; script layer limited to the listed block-keyword lines',
         'pure stages run in-process through cicada::verif_hooks in forked workers; PATH is empty there, so command substitution runs only not-found commands',
         'prefix-closed enumeration: highlighting / word-start of "every prefix" is covered because every shorter string is itself a case',
         'hang = no progress for 2 s on a sub-millisecond case, confirmed alone with a 4x limit (in-process) / 10 s then 40 s (binary)',
@@ -158,7 +160,7 @@ def run(rep, tier):
     L_script, L_c = (4, 3) if tier == 'thorough' else (3, 2)
     cases = []
     nlines = 0
-    for alpha in (SIGMA_A, SIGMA_B):
+    for alpha in (SIGMA_A, SIGMA_B, SIGMA_C):
         batch = []
         for s in strings(alpha, 1, L_script):
             if ends_open(s):
